@@ -292,15 +292,33 @@ func (app *App) addPrefixToRoute(prefix string, route *Route) *Route {
 		prettyPath = utils.TrimRight(prettyPath, '/')
 	}
 
+	// the custom constraints the route was registered with (those of the sub-app) stay in force
+	constraints := app.customConstraints
+	if own := constraintsOf(route); len(own) > 0 {
+		constraints = append(append(make([]CustomConstraint, 0, len(constraints)+len(own)), constraints...), own...)
+	}
+
 	route.Path = prefixedPath
 	route.path = RemoveEscapeChar(prettyPath)
-	route.routeParser = parseRoute(prettyPath, app.customConstraints...)
-	route.Params = parseRoute(prefixedPath, app.customConstraints...).params
+	route.routeParser = parseRoute(prettyPath, constraints...)
+	route.Params = parseRoute(prefixedPath, constraints...).params
 	checkParamCount(prefixedPath, route.routeParser.params)
 	route.root = false
 	route.star = false
 
 	return route
+}
+
+// constraintsOf returns the custom constraints a route's pattern was parsed with
+func constraintsOf(route *Route) []CustomConstraint {
+	for _, seg := range route.routeParser.segs {
+		for _, c := range seg.Constraints {
+			if len(c.customConstraints) > 0 {
+				return c.customConstraints
+			}
+		}
+	}
+	return nil
 }
 
 // checkParamCount refuses a pattern whose parameter values would not fit into the context
